@@ -331,15 +331,15 @@ def run(tier: str, seed: int) -> int:
         ("mstdpet+stdp-nametable", consts(2, t1="mstdpet", am=(1,), prune=False, depth=4), ["NoRedirect"], None),
     ]
     gens = [
-        ("g-stdp-neuron", consts(1, depth=4 if quick else 6), 9000 if quick else 20000),
+        ("g-stdp-neuron", consts(1, depth=4 if quick else 6), 9000 if quick else 15000),
         ("g-stdp-conn-diffhp", consts(1, share="conn", samehp=False, am=(3,), depth=4 if quick else 5),
          3000 if quick else None),
-        ("g-stdp+stdp", consts(2, am=(1,), depth=3 if quick else 5), 5000 if quick else 25000),
-        ("g-mstdpet+stdp", consts(2, t1="mstdpet", am=(1, 5), depth=3 if quick else 5), 5000 if quick else 25000),
+        ("g-stdp+stdp", consts(2, am=(1,), depth=3 if quick else 5), 3500 if quick else 18000),
+        ("g-mstdpet+stdp", consts(2, t1="mstdpet", am=(1, 5), depth=3 if quick else 5), 3500 if quick else 18000),
     ]
     ex = ThreadPoolExecutor(max_workers=5)
+    genf = [ex.submit(run_tlc, c, ["Emit"], 1) for _, c, _ in gens]     # first: the replays wait for them
     mcf = [(name, exp, ex.submit(run_tlc, c, invs)) for name, c, invs, exp in mc]
-    genf = [ex.submit(run_tlc, c, ["Emit"], 1) for _, c, _ in gens]
 
     # ---- A
     first = None
